@@ -62,6 +62,17 @@ have b3 : alpha * (alpha * lambda * lambda) < lambda * lambda.
 have lt : `|akk * arr| < `|ark * ark| by rewrite !normrM; exact: le_lt_trans b1 (lt_trans b2 b3).
 apply/eqP => /subr0_eq e; by rewrite e ltxx in lt.
 Qed.
+
+(* in a 2x2 pivot the off-diagonal entry strictly dominates a_kk: solve_2x2 / gaussian_elimination_2x2 always take their SECOND
+   branch (|e21| <= |e11| is false) - the first one is dead code under the pivot strategy, which a coverage run of the harness confirms *)
+Theorem choice2_offdiag_dominates : bk_choice O alpha `|akk| lambda sigma `|arr| = 2%N ->
+  Ops.leb O (Ops.abs O ark) (Ops.abs O akk) = false.
+Proof.
+rewrite /bk_choice /=.
+case: ltP => h1 //; case: ltP => h2 //; case: leP => h3 // _.
+apply/negbTE; rewrite -ltNge; apply: lt_trans h1 _.
+by rewrite -[X in _ < X]mul1r ltr_pmul2r.
+Qed.
 End Pivot.
 
 (* ------------------------------------------------------------------ copy_data: both triangles agree *)
